@@ -27,6 +27,7 @@ DIMS = [
     ("after", gen.CTX_AFTER, [0, 1, 4], 0),
     ("prefix", PREFIX, [1], 1),
     ("bang", BANG_GAPS, [0, 1], 0),
+    ("paren", ["", " ", "\n    ", " /* c */ "], [0, 2], 0),
     ("eol", [False, True], [0, 1], 0),
     ("style", [False, True], [0, 1], 0),
 ]
@@ -39,7 +40,7 @@ def build_one(t):
     ms, mi = v["macro"]
     macro = gen.MACRO_SETS[ms][mi]
     st = gen.Stmt(macro=macro, qualified=v["path"], target=v["target"], kvs=v["kvs"], msg=v["msg"], trailing=v["trailing"],
-                  fill=v["fill"], bang_gap=v["bang"])
+                  fill=v["fill"], bang_gap=v["bang"], paren_gap=v["paren"])
     f = gen.File(v["style"])
     f.raw(v["prefix"]).raw(v["before"]).stmt(st).raw(v["after"])
     code, exp = f.build(crlf=v["eol"])
